@@ -6,6 +6,13 @@ NOTES = ('Static analysis only: every verdict is computed from the ast of /repo/
          'Exit 2 + ANALYSIS-ERROR means the analysis could not decide (never a verdict).')
 
 CHECKS = {
+    'C07': {
+        'level': 'Formal statement of C07 for a symbolic (real or complex) step ratio, spacing 1..4, leading order, 0..5 terms and short / long '
+                 'sequences: abstract run of Richardson.__call__ on a symbolic model sequence; weights sum to one and annihilate each modelled power in '
+                 'every output slot; output counts; column independence; non-negative error estimates on all branches. Rounding / conditioning not decided.',
+        'note': 'Trusted: convolve1d summary, Vandermonde non-singularity (pinv == inverse). Open known finding: num_terms=0 with N>=2 returns one error estimate fewer.',
+        'technique': 'abstract interpretation of Richardson.rule/_r_matrix/__call__ over exact algebra with a symbolic pseudo inverse (W*M = I applied afterwards)',
+    },
     'C12': {
         'level': 'Formal identity between every Bicomplex operation and the holomorphic extension given by the idempotent decomposition: '
                  'ring operations and exp/sin/cos/sinh/cosh/expm1 by a decision procedure on exp-polynomials of symbolic components; log, '
